@@ -159,6 +159,22 @@ def plan(ctx):
             sc["ops"][closer - 1] = ops
             sc["totals"][closer - 1] = tot
             scs.append(sc)
+        # close-call sequences on one transport with a large, not yet flushed write and a peer that writes nothing:
+        # loseWriteConnection() directly followed by loseConnection(); loseConnection() followed by abortConnection()
+        # while the peer does not read (it reads again once the closer has been told of the loss)
+        for closer in (1, 2):
+            n = ctx.rng.choice([300000, 1000000, 2500000])
+            base = dict(closer=closer, hc=[ctx.rng.random() < 0.5, ctx.rng.random() < 0.5], sndbuf=ctx.rng.choice([0, 4096]), rcvbuf=0,
+                        rdpause=[[], []], totals=[0, 0])
+            for extra in (dict(kind="half", half_then_lose=True, abort_delay_ms=0),
+                          dict(kind="abort", lose_then_abort=True, peer_noread=True, abort_delay_ms=ctx.rng.choice([5, 20, 60]))):
+                sc = dict(base, **extra)
+                if sc.get("peer_noread"):        # buffers small enough that the write cannot disappear into the kernel
+                    sc["sndbuf"], sc["rcvbuf"] = 4096, 65536
+                sc["ops"] = [[], []]
+                sc["ops"][closer - 1] = [["w", n]] if ctx.rng.random() < 0.5 else [["w", n // 2], ["ws", [n - n // 2 - 7, 0, 7]]]
+                sc["totals"] = [n if closer == 1 else 0, n if closer == 2 else 0]
+                scs.append(sc)
         chunk = 25
         for i in range(0, len(scs), chunk):
             jobs.append(dict(reactor=reactor, scenarios=scs[i:i + chunk], timeout_ms=TIMEOUT_MS, idle_ms=IDLE_MS))
